@@ -204,11 +204,14 @@ pub fn eval(b: &Bases, c: &DirCase) -> CaseOut {
         }
         d[slot].as_ref().unwrap().handle()
     });
+    // one region in four is read from a storage that makes short transfers (set per case: the device is shared)
+    let sh = bytes.iter().take(96).fold(0x9E37_79B9u64, |a, b| (a ^ *b as u64).wrapping_mul(0x100_0000_01B3)) ^ bytes.len() as u64;
     dev.with(|d| {
         d.store.write_at(off, &bytes);
         d.budget = d.calls + 2_000_000;
         d.budget_hit = false;
         d.pos = 0;
+        d.short_io = if sh % 4 == 0 { sh | 1 } else { 0 };
     });
     let chained = c.chained;
     let devh = dev.handle();
@@ -585,7 +588,7 @@ pub fn run(tier: Tier, seed: u64) -> i32 {
     }
     // block C: soup
     if !rep.failed() {
-        let n = tier.pick(150_000u32, 5_000_000u32);
+        let n = tier.pick(500_000u32, 5_000_000u32);
         rep.add(run::run_random("random_slot_soup", seed, n, "dirslots", || run::boxed(soup_strategy()), |c: &DirCase| eval(b, c)));
     }
     if !rep.failed() && tier == Tier::Thorough {
